@@ -329,7 +329,7 @@ class Prop:
         if not res.get("ok") or len(case["steps"]) != 1 or case["steps"][0][0] != "orth":
             return None
         tj = case["t"]; N = len(tj["modes"])
-        if N > 3 or max(max(np.array(m["core"]).shape) for m in tj["modes"]) > 3:
+        if N > 4 or max(max(np.array(m["core"]).shape) for m in tj["modes"]) > 4:
             return None
         mu = int(case["steps"][0][1]) % N
         t = to_tn(tj); recs = []
